@@ -99,16 +99,19 @@ class _GetattrSelf(ast.NodeTransformer):
         return node
 
 
-def _literal_table(it, host):
-    """The literal table a ``for`` iterates (inline, or a local bound exactly once to a literal), or None."""
+def _literal_table(it, host, consts=None):
+    """The literal table a ``for`` iterates (inline, a local bound exactly once to a literal, or a module-level constant), or None."""
     if isinstance(it, ast.Name):
         stores = [x for x in ast.walk(host) if isinstance(x, ast.Name) and x.id == it.id and isinstance(x.ctx, (ast.Store, ast.Del))]
-        if len(stores) != 1:
-            return None
-        defs = [a for a in ast.walk(host) if isinstance(a, ast.Assign) and len(a.targets) == 1 and a.targets[0] is stores[0]]
-        if not defs:
-            return None
-        it = defs[0].value
+        if not stores and consts is not None and consts.get(it.id) is not None:
+            it = consts.get(it.id)
+        else:
+            if len(stores) != 1:
+                return None
+            defs = [a for a in ast.walk(host) if isinstance(a, ast.Assign) and len(a.targets) == 1 and a.targets[0] is stores[0]]
+            if not defs:
+                return None
+            it = defs[0].value
     if not isinstance(it, (ast.Tuple, ast.List)):
         return None
 
@@ -138,7 +141,7 @@ def _guard_continue_normal_form(body):
     return body
 
 
-def unroll_literal_loops(fn):
+def unroll_literal_loops(fn, consts=None):
     """View transformation: a ``for`` over a literal table of constants whose body has no break/continue (after the
     guard-continue normal form) is replaced by one copy of the body per element, loop variables substituted and
     getattr(self, '<name>') read as self.<name>.  Returns the number of loops unrolled."""
@@ -156,7 +159,7 @@ def unroll_literal_loops(fn):
                 for i, node in enumerate(lst):
                     if not isinstance(node, ast.For) or node.orelse:
                         continue
-                    table = _literal_table(node.iter, fn)
+                    table = _literal_table(node.iter, fn, consts)
                     if table is None:
                         continue
                     body = _guard_continue_normal_form(list(node.body))
